@@ -35,6 +35,10 @@ REGRESSIONS = [
     ('reads-inert-for-==', 'Seq4', [('RSetItem', ('KName', 0), ('PInt', 1)), ('RSetItem', ('KName', 3), ('PInt', 2)), ('RGetItem', ('KName', 1)),
                                     ('RIsValue',), ('RValues',), ('REncode',), ('RClone', True), ('RGetItem', ('KName', 1)), ('REncode',)]),
     ('reads-inert-for-==', 'Set4', [('RSetName', 0, ('PAsn', 3)), ('RGetName', 1, True), ('RSetType', 3, ('PInt', 4)), ('RGetItem', ('KPos', 1)), ('REncode',)]),
+    ('refined-member-overwritten', 'SequenceOf(Integer)', [('SExtend', [('PInt', 1), ('PSub', 5), ('PInt', 3)]), ('SSetItem', 0, ('PInt', 100)),
+                                                           ('SSetItem', 1, ('PInt', 100)), ('SEncode',), ('SSetItem', 1, ('PSub', 7)), ('SReverse',),
+                                                           ('SAppend', ('PSub', 2)), ('SSetItem', -1, ('PInt', 1000)), ('SSetPos', 1, ('PInt', 4)), ('SEncode',)]),
+    ('refined-member-overwritten', 'SetOf(Integer)', [('SAppend', ('PSub', 9)), ('SSetPos', 0, ('PInt', 8)), ('SSort', True), ('SSetItem', 0, ('PInt', -5)), ('SIter',)]),
     ('stable-sort', 'SequenceOf()', [('SAppend', ('PAsn', 4)), ('SAppend', ('PAsn', 2)), ('SAppend', ('PAsn', 6)), ('SSortKey', 2, True), ('SIter',)]),
 ]
 
@@ -164,7 +168,7 @@ def run(ctx):
     per_kind = ctx.n(40, 200)
     maxlen = 40 if quick else 400
     ctx.rule = ('random operation histories (length 5..%d; every 4th history "wild": arguments also from the classes of the '
-                'recorded findings F18a/d/i; sorts with key=int(x)%%m and reverse over members that tie under the key) over SequenceOf(Integer), SetOf(Integer), SequenceOf(), a 4-component Sequence '
+                'recorded findings F18a/d/i; sorts with key=int(x)%%m and reverse over members that tie under the key; members handed in as value objects of the refined type INTEGER (0..9), later overwritten by bare values) over SequenceOf(Integer), SetOf(Integer), SequenceOf(), a 4-component Sequence '
                 'and Set (Req/Opt/Default, distinct tags) and a 3-alternative Choice; after every step: outcome and concrete state '
                 'vs the Coq model, outcome/content/len/isValue vs a plain list/dict/option prototype; non-trivial = history with '
                 '>= 3 successful mutators' % maxlen)
